@@ -68,6 +68,16 @@ def run(ctx):
         else:
             k = ctx.rng.choice([1, 2, 2, 3] if ctx.quick else [1, 2, 3, 4])
             seqs = nc.repertoire(ctx.rng, ctx.rng.randint(16, 40 if ctx.quick else 70), maxmut=k + 1, maxlen=15)
+            if r % 6 == 1:
+                # one length only, relatives by a deletion here and an insertion there: Levenshtein 2 with many mismatching positions
+                k = max(k, 2)
+                base = "".join(ctx.rng.choice(nc.AA) for _ in range(ctx.rng.randint(7, 11)))
+                seqs = [base]
+                for _ in range(ctx.rng.randint(8, 18)):
+                    x = ctx.rng.choice(seqs)
+                    i, j = ctx.rng.randrange(len(x)), ctx.rng.randrange(len(x))
+                    y = x[:i] + x[i + 1:]
+                    seqs.append(y[:j] + ctx.rng.choice(nc.AA) + y[j:])
             inp = nc.make_inp("kd", "lev", k, seqs, comp=ctx.rng.choice(COMPS))
         sessions.append(nc.build_session(sid, inp))
     npx.count_sessions(ctx, sessions)
